@@ -1417,7 +1417,7 @@ class Compiler:
         elif isinstance(node, ObjectExpression):
             for prop in node.properties:
                 # Key
-                if isinstance(prop.key, Identifier):
+                if isinstance(prop.key, Identifier) and not prop.computed:
                     idx = self._add_constant(prop.key.name)
                     self._emit(OpCode.LOAD_CONST, idx)
                 else:
